@@ -68,6 +68,8 @@ class SchemaGen:
         objs = ["Ob%s" % chr(65 + i) for i in range(n_obj)]
         if odd_type_names and n_obj >= 3:
             objs[-1] = "snake_obj"
+        if odd_type_names and n_obj >= 2:
+            objs[0] = r.choice(["HTTPThing", "SMSMessage", "ObA", "dnsFailure"])
         ifaces = ["If%s" % chr(65 + i) for i in range(n_iface)]
         unions = ["Un%s" % chr(65 + i) for i in range(n_union)]
         enums = ["En%s" % chr(65 + i) for i in range(n_enum)]
